@@ -37,7 +37,7 @@ pub const DEF: CheckDef = CheckDef {
     id: "C18",
     run,
     technique: "bounded-exhaustive enumeration of consistent camt.053 statements rendered as XML by the generator; the real importer (library entry point and ImportCmd on real files) is compared with a reference import written from the statement, and funding + printed output is fed back through the real report::process (acceptance and exact final balance)",
-    rule: "case = one statement = (opening balance {0, 100.00, -50.25}, row_order {old_to_new, new_to_old}, sequence of entries). Entry alphabet E (750) = side{CRDT,DBIT} x amount{0.05, 10.10, 1000} x dates{value=booking, booking=value+1, booking=value-1, value date absent, value date absent and booking date as DtTm with offset} x 25 detail/charge shapes (0/1/2/3 TxDtls whose signed amounts sum to the entry, incl. batches of 2 and 3 where one detail (first or last) has the OPPOSITE CdtDbtInd, with and without AmtDtls and with an included charge on the opposite detail; NtryDtls absent / Btch only; AmtDtls present/absent; charge: none, zero record, included at entry level, at detail level, at both, on the second detail only, not included). Families, each a complete product x 3 openings x 2 row orders: F0 no entry (6); F1 one entry over E (4 500); quick: F2 two entries over E2 = 108 (side x amount x {value=booking, booking=value+1} x 9 shapes incl. a mixed-indicator batch of 3) (69 984), F2d two entries over 20 = side x 10.10 x 5 dates x {k0,k2} (2 400), F3 three entries over 12 = side x amount x {k0, k2-det-incl} (10 368); thorough: F2 two entries over E (3 375 000), F3 three entries over 72 = side x amount x 2 dates x 6 shapes (2 239 488), F4 four entries over 12 (124 416). states = statements executed, transitions = ledger transactions compared with the reference (both observations), validated = MUST statements",
+    rule: "case = one statement = (opening balance {0, 100.00, -50.25}, row_order {old_to_new, new_to_old}, sequence of entries). Entry alphabet E (990) = side{CRDT,DBIT} x amount{0.05, 10.10, 1000} x dates{value=booking, booking=value+1, booking=value-1, value date absent, value date absent and booking date as DtTm with offset} x 33 detail/charge shapes (0/1/2/3 TxDtls whose signed amounts sum to the entry, incl. batches of 2 and 3 where one detail (first or last) has the OPPOSITE CdtDbtInd, with and without AmtDtls and with an included charge on the opposite detail; NtryDtls absent / Btch only; AmtDtls present/absent; charge: none, zero record, included at entry level, at detail level, at both, on the second detail only, not included; two and three non-zero charge records landing on one imported transaction without TxAmt: 2/3 records in one entry-level Chrgs, 2 in one detail-level Chrgs, entry-level + detail-level on a single detail and on the first detail of a batch, 2 entry-level records on a batch, 2 records with TxAmt, 2 not-included records). Families, each a complete product x 3 openings x 2 row orders: F0 no entry (6); F1 one entry over E (5 940); quick: F2 two entries over E2 = 108 (side x amount x {value=booking, booking=value+1} x 9 shapes incl. a mixed-indicator batch of 3 and an entry with two included charge records and no TxAmt) (69 984), F2d two entries over 20 = side x 10.10 x 5 dates x {k0,k2} (2 400), F3 three entries over 12 = side x amount x {k0, k2-det-incl} (10 368); thorough: F2 two entries over E (5 880 600), F3 three entries over 72 = side x amount x 2 dates x 6 shapes (2 239 488), F4 four entries over 12 (124 416). states = statements executed, transitions = ledger transactions compared with the reference (both observations), validated = MUST statements",
     assumptions: &[
         "the generator's XML skeleton follows okane's own sample file (cli/tests/testdata/import/iso_camt.xml); elements okane does not model (GrpHdr, Acct, TxsSummry, RvslInd, Sts, Btch totals, RltdPties) are constant",
         "included charge: the entry/detail amount is the account movement; AmtDtls/TxAmt (when rendered) is the amount net of the included charges (debit: Amt - charges, credit: Amt + charges) as in the sample file; an entry-level charge on a two-detail batch is attributed to the first detail's TxAmt",
@@ -82,8 +82,41 @@ enum Chg {
     None,
     /// a record with amount 0 (as in the sample file): must change nothing
     Zero,
+    /// one included record of the level's amount (entry 0.02, detail 0.01)
     Incl,
+    /// one included record of 0.01 whatever the level
+    InclSmall,
+    /// two / three included records of 0.01 each inside ONE <Chrgs>
+    Incl2,
+    Incl3,
     NotIncl,
+    /// two not-included records of 0.01 each
+    NotIncl2,
+}
+
+impl Chg {
+    /// the charge records of one <Chrgs> block: (amount in cents, ChrgInclInd)
+    fn records(self, level_amount: i64) -> Vec<(i64, Option<bool>)> {
+        match self {
+            Chg::None => vec![],
+            Chg::Zero => vec![(0, None)],
+            Chg::Incl => vec![(level_amount, Some(true))],
+            Chg::InclSmall => vec![(1, Some(true))],
+            Chg::Incl2 => vec![(1, Some(true)); 2],
+            Chg::Incl3 => vec![(1, Some(true)); 3],
+            Chg::NotIncl => vec![(level_amount, Some(false))],
+            Chg::NotIncl2 => vec![(1, Some(false)); 2],
+        }
+    }
+    fn included(self, level_amount: i64) -> i64 {
+        self.records(level_amount).iter().filter(|r| r.1 == Some(true)).map(|r| r.0).sum()
+    }
+    fn not_included(self, level_amount: i64) -> i64 {
+        self.records(level_amount).iter().filter(|r| r.1 == Some(false)).map(|r| r.0).sum()
+    }
+    fn nonzero_records(self) -> usize {
+        self.records(1).iter().filter(|r| r.0 != 0).count()
+    }
 }
 
 #[derive(Clone, Copy, Debug)]
@@ -110,7 +143,7 @@ const fn shm(name: &'static str, k: usize, opp: Option<usize>, d1: Chg, amt_dtls
     Shape { name, k, opp, btch: true, entry_chg: Chg::None, det_chg: [Chg::None, d1], amt_dtls }
 }
 
-const SHAPES: [Shape; 25] = [
+const SHAPES: [Shape; 33] = [
     sh("k0", 0, false, Chg::None, Chg::None, Chg::None, false),
     sh("k0-btch", 0, true, Chg::None, Chg::None, Chg::None, false),
     sh("k1", 1, true, Chg::None, Chg::None, Chg::None, false),
@@ -137,6 +170,15 @@ const SHAPES: [Shape; 25] = [
     shm("k2-mixed-det2-incl", 2, Some(1), Chg::Incl, true),
     shm("k3-mixed", 3, Some(2), Chg::None, false),
     shm("k3-mixed-amtdtls", 3, Some(2), Chg::None, true),
+    // several non-zero charge records landing on ONE imported transaction
+    sh("k0-entry-incl2", 0, false, Chg::Incl2, Chg::None, Chg::None, false),
+    sh("k0-entry-incl3", 0, false, Chg::Incl3, Chg::None, Chg::None, false),
+    sh("k1-det-incl2-noamtdtls", 1, true, Chg::None, Chg::Incl2, Chg::None, false),
+    sh("k1-both-incl-noamtdtls", 1, true, Chg::Incl, Chg::Incl, Chg::None, false),
+    sh("k2-entry-incl2-noamtdtls", 2, true, Chg::Incl2, Chg::None, Chg::None, false),
+    sh("k2-both-incl-noamtdtls", 2, true, Chg::InclSmall, Chg::Incl, Chg::None, false),
+    sh("k1-det-incl2", 1, true, Chg::None, Chg::Incl2, Chg::None, true),
+    sh("k0-entry-notincl2", 0, false, Chg::NotIncl2, Chg::None, Chg::None, false),
 ];
 
 impl Shape {
@@ -144,14 +186,24 @@ impl Shape {
         self.det_chg.get(j).copied().unwrap_or(Chg::None)
     }
     fn has_not_included(&self) -> bool {
-        self.entry_chg == Chg::NotIncl || self.det_chg.contains(&Chg::NotIncl)
+        self.entry_chg.not_included(ENTRY_CHARGE) > 0 || self.det_chg.iter().any(|c| c.not_included(DETAIL_CHARGE) > 0)
     }
     /// one entry-level charge record on an entry with two details
     fn entry_charge_on_batch(&self) -> bool {
-        self.k == 2 && self.entry_chg == Chg::Incl
+        self.k >= 2 && self.entry_chg.included(ENTRY_CHARGE) > 0
     }
     fn has_included(&self) -> bool {
-        self.entry_chg == Chg::Incl || self.det_chg.contains(&Chg::Incl)
+        self.entry_chg.included(ENTRY_CHARGE) > 0 || self.det_chg.iter().any(|c| c.included(DETAIL_CHARGE) > 0)
+    }
+    /// largest number of non-zero charge records that land on one imported transaction
+    /// (entry-level records go to the entry's transaction, resp. to the first detail's)
+    fn records_on_one_txn(&self) -> usize {
+        let mut best = 0;
+        for j in 0..self.k.max(1) {
+            let n = if j == 0 { self.entry_chg.nonzero_records() } else { 0 } + if self.k > 0 { self.chg(j).nonzero_records() } else { 0 };
+            best = best.max(n);
+        }
+        best
     }
     /// an included charge but no TxAmt from which the net amount could be read
     fn included_without_txamt(&self) -> bool {
@@ -265,23 +317,25 @@ fn ind(c: i64) -> &'static str {
 // ------------------------------------------------------------------------------------------
 // XML rendering (skeleton of cli/tests/testdata/import/iso_camt.xml)
 
-fn render_charges(out: &mut String, indent: &str, chg: Chg, amount: i64) {
-    if chg == Chg::None {
+fn render_charges(out: &mut String, indent: &str, chg: Chg, level_amount: i64) {
+    let recs = chg.records(level_amount);
+    if recs.is_empty() {
         return;
     }
-    let amt = if chg == Chg::Zero { 0 } else { amount };
     out.push_str(&format!("{i}<Chrgs>\n", i = indent));
-    if chg != Chg::Zero {
-        out.push_str(&format!("{i}  <TtlChrgsAndTaxAmt Ccy=\"{c}\">{a}</TtlChrgsAndTaxAmt>\n", i = indent, c = CCY, a = cents(amt)));
+    let total: i64 = recs.iter().map(|r| r.0).sum();
+    if total != 0 {
+        out.push_str(&format!("{i}  <TtlChrgsAndTaxAmt Ccy=\"{c}\">{a}</TtlChrgsAndTaxAmt>\n", i = indent, c = CCY, a = cents(total)));
     }
-    out.push_str(&format!("{i}  <Rcrd>\n{i}    <Amt Ccy=\"{c}\">{a}</Amt>\n", i = indent, c = CCY, a = cents(amt)));
-    out.push_str(&format!("{i}    <CdtDbtInd>{d}</CdtDbtInd>\n", i = indent, d = if chg == Chg::Zero { "CRDT" } else { "DBIT" }));
-    match chg {
-        Chg::Incl => out.push_str(&format!("{i}    <ChrgInclInd>true</ChrgInclInd>\n", i = indent)),
-        Chg::NotIncl => out.push_str(&format!("{i}    <ChrgInclInd>false</ChrgInclInd>\n", i = indent)),
-        _ => {}
+    for (amt, incl) in recs {
+        out.push_str(&format!("{i}  <Rcrd>\n{i}    <Amt Ccy=\"{c}\">{a}</Amt>\n", i = indent, c = CCY, a = cents(amt)));
+        out.push_str(&format!("{i}    <CdtDbtInd>{d}</CdtDbtInd>\n", i = indent, d = if amt == 0 { "CRDT" } else { "DBIT" }));
+        if let Some(b) = incl {
+            out.push_str(&format!("{i}    <ChrgInclInd>{b}</ChrgInclInd>\n", i = indent, b = b));
+        }
+        out.push_str(&format!("{i}    <Tp>\n{i}      <Prtry>\n{i}        <Id>SHAR</Id>\n{i}      </Prtry>\n{i}    </Tp>\n{i}  </Rcrd>\n", i = indent));
     }
-    out.push_str(&format!("{i}    <Tp>\n{i}      <Prtry>\n{i}        <Id>SHAR</Id>\n{i}      </Prtry>\n{i}    </Tp>\n{i}  </Rcrd>\n{i}</Chrgs>\n", i = indent));
+    out.push_str(&format!("{i}</Chrgs>\n", i = indent));
 }
 
 fn render_entry(out: &mut String, stmt: &Stmt, i: usize) {
@@ -315,19 +369,11 @@ fn render_entry(out: &mut String, stmt: &Stmt, i: usize) {
             out.push_str(&format!("            <Amt Ccy=\"{}\">{}</Amt>\n            <CdtDbtInd>{}</CdtDbtInd>\n", CCY, cents(*da), dcd));
             if s.amt_dtls {
                 // charges carried by this detail
-                let mut incl = 0;
-                let mut not_incl = 0;
-                match s.chg(j) {
-                    Chg::Incl => incl += DETAIL_CHARGE,
-                    Chg::NotIncl => not_incl += DETAIL_CHARGE,
-                    _ => {}
-                }
+                let mut incl = s.chg(j).included(DETAIL_CHARGE);
+                let mut not_incl = s.chg(j).not_included(DETAIL_CHARGE);
                 if j == 0 {
-                    match s.entry_chg {
-                        Chg::Incl => incl += ENTRY_CHARGE,
-                        Chg::NotIncl => not_incl += ENTRY_CHARGE,
-                        _ => {}
-                    }
+                    incl += s.entry_chg.included(ENTRY_CHARGE);
+                    not_incl += s.entry_chg.not_included(ENTRY_CHARGE);
                 }
                 // net amount of the underlying transaction: debit: the account paid amount = net + charge;
                 // credit: the account received amount = net - charge
@@ -743,10 +789,10 @@ fn families(thorough: bool) -> Vec<Family> {
     let all_dates = [Dates::Same, Dates::BookLater, Dates::BookEarlier, Dates::ValueAbsent, Dates::BookDtTmOnly];
     let all_shapes: Vec<usize> = (0..SHAPES.len()).collect();
     let idx = |names: &[&str]| -> Vec<usize> { names.iter().map(|n| shape_idx(n)).collect() };
-    // E: 2 x 3 x 5 x 25 = 750
+    // E: 2 x 3 x 5 x 33 = 990
     let full = alphabet(&both, &all_amts, &all_dates, &all_shapes);
     // E2: 2 x 3 x 2 x 9 = 108
-    let e2 = alphabet(&both, &all_amts, &[Dates::Same, Dates::BookLater], &idx(&["k0", "k1", "k2", "k1-entry-incl", "k2-det-incl", "k0-entry-incl", "k2-entry-incl", "k1-det-notincl", "k3-mixed"]));
+    let e2 = alphabet(&both, &all_amts, &[Dates::Same, Dates::BookLater], &idx(&["k0", "k1", "k2", "k1-entry-incl", "k2-det-incl", "k0-entry-incl2", "k2-entry-incl", "k1-det-notincl", "k3-mixed"]));
     // Ed: 2 x 1 x 5 x 2 = 20 (all date combinations of two entries)
     let ed = alphabet(&both, &[1], &all_dates, &idx(&["k0", "k2"]));
     // E3: 2 x 3 x 1 x 2 = 12
@@ -802,6 +848,7 @@ fn run(ctx: &mut Ctx) {
             ctx.count("states", 1);
             ctx.count("entries", stmt.entries.len() as u64);
             ctx.count("statements_new_to_old", stmt.new_to_old as u64);
+            ctx.count("entries_with_several_charge_records_on_one_transaction", stmt.entries.iter().filter(|e| e.shape().records_on_one_txn() >= 2).count() as u64);
             ctx.count("details_with_opposite_indicator", stmt.entries.iter().filter(|e| e.shape().opp.is_some()).count() as u64);
             ctx.count("details", stmt.entries.iter().map(|e| e.shape().k as u64).sum());
         }
